@@ -87,6 +87,7 @@ class Contract:
         self.decreases: Optional[Clause] = None
         self.result_is: List[Clause] = []
         self.hints: List[Clause] = []
+        self.post_hints: List[Clause] = []
         self.narrows: Dict[str, Clause] = {}    # declared in-place narrowing of an argument's stored type (W2)
         default_tag = props[0] if props else 'aux'
         for name, fn in vars(cls).items():
@@ -105,6 +106,9 @@ class Contract:
                 self.decreases = Clause(name, fn, tag, 'decreases')
             elif name.startswith('narrows_'):
                 self.narrows[name[len('narrows_'):]] = Clause(name, fn, tag, 'narrows')
+            elif name.startswith('hint_post'):
+                # evaluated on return, with `result`, before the postconditions (instances of proved lemmas / axioms)
+                self.post_hints.append(Clause(name, fn, 'aux', 'hint'))
             elif name.startswith('hint'):
                 self.hints.append(Clause(name, fn, 'aux', 'hint'))
             elif name.startswith('result_is_'):
@@ -270,3 +274,8 @@ def unwrap_function(obj):
         else:
             break
     return obj
+
+
+def raw_field(x, cls_name, field_name):
+    """(trigger patterns only) the accessor term cls.field applied to x without any class test"""
+    return getattr(x, field_name)
